@@ -414,8 +414,11 @@ fn templates(env: &Env) -> Vec<(String, Expr)> {
             }
         }
         for r in ["^(a|b|ab)$", "^(a|b|ab|A|%)$", "a|^b", "^a$|^b$|^ab$|^A$", "^a$|^b$|^ab$|^A$|^_$", "^a_$", "^%$", "^(%|_)$", ".*a", "a.*", "^a.*b$", "(?i)a", "^[a]$"] {
-            add("regex", bin(c(scol), Operator::RegexMatch, lit(r)));
-            add("regex", bin(c(scol), Operator::RegexNotMatch, lit(r)));
+            // all four operators: the case-insensitive ones are rewritten to ILIKE, where a literal `_` / `%`
+            // of an anchored pattern would turn into a wildcard
+            for op in [Operator::RegexMatch, Operator::RegexNotMatch, Operator::RegexIMatch, Operator::RegexNotIMatch] {
+                add("regex", bin(c(scol), op, lit(r)));
+            }
         }
         for p in ["a", "", "%", "a%", "_", "ab", "a\\", "\\"] {
             add("starts-with", f_starts_with(c(scol), lit(p)));
